@@ -534,6 +534,9 @@ Definition name_ok (i : input) (o : obs) (is_verify is_uninstall : bool) (name :
       && match o_written o with [] => true | _ => false end
       && (if is_uninstall then match o_exec o with [] => true | _ => false end
           else match o_removed o with [] => true | _ => false end)
+      (* the only file a lookup may execute is <root>/<name>/notation-<name>
+         (an install source is executed only by the Install that names it) *)
+      && forallb (String.eqb (child_path (allowed (i_root i) name) (bin_name name))) (o_exec o)
   end.
 
 (* the names an install source can stand for: notation-<name> file names *)
